@@ -111,7 +111,11 @@ func RunPath(prog *ssa.Program, fn *ssa.Function, prefix []string, s *solver.Sol
 			case endPath:
 				finish("ended", p.reason, "")
 			case exitPanic:
-				finish("exit", fmt.Sprintf("os.Exit(%d)", int(p)), x.panicSite)
+				if x.haltMsg != "" {
+					finish("exit", x.haltMsg, x.panicSite)
+				} else {
+					finish("exit", fmt.Sprintf("os.Exit(%d)", int(p)), x.panicSite)
+				}
 			case targetPanic:
 				finish("panic", panicText(i, p), x.panicSite)
 			case runtime.Error:
